@@ -26,6 +26,7 @@ from mc.ref import partition_ref as R
 PROPERTY = 'C14'
 BUDGET = {'quick': 600, 'thorough': 3600}
 
+PRODUCT_CAP = 300     # larger point products are visited as a star (axes are independent)
 RTOL = 1e-12          # tolerance (times max(1, magnitude)) where the arithmetic is not exact
 
 LIMITS = [[0.0, 1.0], [-1.0, 2.5], [0.25, 0.75]]
@@ -284,6 +285,8 @@ def check_points(p, site, V, what='', star=False):
     bs = [np.asarray(v, dtype=float) for v in p.cell_boundary_vecs]
     frb = [[Fr(float(v)) for v in b] for b in bs]
     sets = [axis_points(b, x) for b, x in zip(bs, p.coord_vectors)]
+    if nd > 1 and int(np.prod([len(q) for q in sets])) > PRODUCT_CAP:
+        star = True
     if star and nd > 1:
         small = [sorted(set([s[0], s[len(s) // 2], s[-1]])) for s in sets]
         combos = set()
@@ -462,7 +465,10 @@ def check_child(parent, pref, idx, site, V, what):
             cref, contig = R.getitem(pref, idx)
     except R.Inadmissible:
         return None
-    tag = '%s: parent {%s}[%s]' % (what, describe(pref), _enc(idx))
+    class _Tag(object):
+        def __add__(self, other):
+            return '%s: parent {%s}[%s]' % (what, describe(pref), _enc(idx)) + other
+    tag = _Tag()
     V.evals += 1
     try:
         child = parent[idx]
@@ -514,7 +520,9 @@ def _gsite(base_site, idx):
 
 def explore_getitem(p, pref, base_site, V, full2=False, points_star=True):
     """Depth 2: every index expression on the base partition; every distinct child gets the
-    invariants, the point-location check and a second round of index expressions."""
+    invariants, the point-location check and a second round of index expressions
+    (``full2``: the full alphabet again, else the reduced one); every distinct grandchild
+    gets the invariants."""
     children = {}
     for idx in index_exprs(p.shape, full=True):
         site = _gsite(base_site, idx)
@@ -532,6 +540,8 @@ def explore_getitem(p, pref, base_site, V, full2=False, points_star=True):
                 V.add(site, 'equal_selections_not_equal', '%s vs %s on {%s}'
                       % (_enc(idx), _enc(children[k][2]), describe(pref)))
     V.sigs.add('children:%d' % len(children))
+    seen = set(children)
+    ngrand = 0
     for k, (child, cref, idx) in children.items():
         site = _gsite(base_site, idx)
         what = 'child [%s] of {%s}' % (_enc(idx), describe(pref))
@@ -541,10 +551,14 @@ def explore_getitem(p, pref, base_site, V, full2=False, points_star=True):
             r = check_child(child, cref, idx2, _gsite(base_site, idx2), V,
                             'depth 2 via [%s]' % _enc(idx))
             if r is not None:
-                invariants(r[0], _gsite(base_site, idx2), V,
-                           'grandchild [%s][%s] of {%s}' % (_enc(idx), _enc(idx2),
-                                                            describe(pref)))
-    return len(children)
+                k2 = ref_key(r[1])
+                if k2 not in seen:
+                    seen.add(k2)
+                    ngrand += 1
+                    invariants(r[0], _gsite(base_site, idx2), V,
+                               'grandchild [%s][%s] of {%s}' % (_enc(idx), _enc(idx2),
+                                                                describe(pref)))
+    return len(children), ngrand
 
 
 # ------------------------------------------------------------------------------------------
@@ -934,6 +948,7 @@ def check_ops(p, ref, V, others, thorough):
     base = describe(ref)
     # insert / append
     blocks = [[o] for o in others] + [[a, b] for a in others[:3] for b in others[:3]]
+    blocks += [[o, others[0]] for o in others if len(o) > 1]      # multi-dimensional part first
     if thorough:
         blocks += [[others[0], others[3], others[1]]]
     for blk in blocks:
@@ -971,7 +986,7 @@ def check_ops(p, ref, V, others, thorough):
         if ok:
             exp = R.squeeze(ref, axes)
             V.sigs.add('squeeze:%d' % (nd - len(exp)))
-            if _axes_match(q, exp, 'RectPartition.squeeze', V, what) and len(exp):
+            if _axes_match(q, exp, 'RectPartition.squeeze', V, what):
                 invariants(q, 'RectPartition.squeeze', V, what)
         # keyword spelling
     ok, q = _try(V, 'RectPartition.squeeze', 'squeeze(axis=None)', lambda: p.squeeze(axis=None))
@@ -1006,7 +1021,7 @@ def check_ops(p, ref, V, others, thorough):
         if ok:
             exp = R.byaxis(ref, axes)
             V.sigs.add('byaxis:%d' % len(exp))
-            if _axes_match(q, exp, site, V, what) and len(exp):
+            if _axes_match(q, exp, site, V, what):
                 invariants(q, site, V, what)
     # the building blocks named in the anchors, directly
     g, s = p.grid, p.set
@@ -1136,48 +1151,64 @@ def _complexity(axes, kind):
     return sum(POOL[i].n for i in axes)
 
 
+G2U = [[0.0, 1.0, 2, 0, 0], [-1.0, 2.5, 3, 1, 0], [0.25, 0.75, 1, 0, 0]]
+G2N = [[0, 'lim', 2, 0], [1, 'nob', 0, 0], [2, 'lim', 1, 1]]
+
+
+def _prod(alph, nd):
+    return [[list(a) for a in t] for t in itertools.product(alph, repeat=nd)]
+
+
 def configs(tier):
     thorough = tier == 'thorough'
     U, N = _uni_axes(), _non_axes()
     bases = []           # (kind, axes, whats)
-    ALL = ['routes', 'points', 'getitem']
+    RP = ['routes', 'points']
+    G1 = ['getitem2'] if thorough else ['getitem']
     # 1-d: the full per-axis alphabets
     for a in U:
-        bases.append(('uni', [a], ALL))
+        bases.append(('uni', [a], RP + G1))
     for a in N:
-        bases.append(('non', [a], ALL))
-    # 2-d
+        bases.append(('non', [a], RP + G1))
     if thorough:
-        for t in itertools.product(U, repeat=2):
-            bases.append(('uni', [list(a) for a in t], ['routes', 'points']))
-        for t in _star(U, UNI_MED, 2):
-            bases.append(('uni', t, ['getitem']))
+        # 2-d
+        for t in _prod(U, 2):
+            bases.append(('uni', t, RP))
         for t in _star(N, NON_MED, 2):
-            bases.append(('non', t, ALL))
+            bases.append(('non', t, RP))
+        for t in _star(U, G2U, 2):
+            bases.append(('uni', t, ['getitem']))
+        for t in _star(N, G2N, 2):
+            bases.append(('non', t, ['getitem']))
+        for t in _prod(G2U, 2):
+            bases.append(('uni', t, ['getitem2']))
+        for t in _prod(G2N, 2):
+            bases.append(('non', t, ['getitem2']))
+        # 3-d
+        for t in _star(U, UNI_SMALL, 3):
+            bases.append(('uni', t, RP))
+        for t in _prod(NON_SMALL, 3):
+            bases.append(('non', t, RP))
+        for t in _prod(G2U, 3):
+            bases.append(('uni', t, ['getitem']))
+        for t in _prod(G2N, 3):
+            bases.append(('non', t, ['getitem']))
     else:
         for t in _star(U, UNI_SMALL, 2):
-            bases.append(('uni', t, ['routes', 'points']))
-        for t in itertools.product(UNI_MED, repeat=2):
-            bases.append(('uni', [list(a) for a in t], ['getitem']))
+            bases.append(('uni', t, RP))
         for t in _star(N, NON_SMALL, 2):
-            bases.append(('non', t, ['routes', 'points']))
-        for t in itertools.product(NON_SMALL, repeat=2):
-            bases.append(('non', [list(a) for a in t], ['getitem']))
-    # 3-d
-    if thorough:
-        for t in _star(U, UNI_SMALL, 3):
-            bases.append(('uni', t, ['routes', 'points']))
-        for t in itertools.product(UNI_SMALL, repeat=3):
-            bases.append(('uni', [list(a) for a in t], ['getitem']))
-        for t in itertools.product(NON_SMALL, repeat=3):
-            bases.append(('non', [list(a) for a in t], ALL))
-    else:
-        for t in itertools.product(UNI_SMALL, repeat=3):
-            bases.append(('uni', [list(a) for a in t], ['routes', 'points']))
-        for t in itertools.product(UNI_SMALL[:3], repeat=3):
-            bases.append(('uni', [list(a) for a in t], ['getitem']))
-        for t in itertools.product(NON_SMALL[:3], repeat=3):
-            bases.append(('non', [list(a) for a in t], ALL))
+            bases.append(('non', t, RP))
+        for t in _prod(G2U, 2):
+            bases.append(('uni', t, ['getitem']))
+        for t in _prod(G2N, 2):
+            bases.append(('non', t, ['getitem']))
+        for t in _prod(UNI_SMALL, 3):
+            bases.append(('uni', t, RP))
+        for t in _prod(NON_SMALL[:3], 3):
+            bases.append(('non', t, RP))
+        bases.append(('uni', [G2U[1], G2U[2], G2U[0]], ['getitem']))
+        bases.append(('uni', [G2U[2], G2U[0], G2U[0]], ['getitem']))
+        bases.append(('non', [G2N[0], G2N[1], G2N[2]], ['getitem']))
     # products of pool partitions for insert / append / squeeze / byaxis
     np_ = len(POOL)
     for nd in (1, 2, 3):
@@ -1189,18 +1220,23 @@ def configs(tier):
     cfgs, seen = [], set()
     for kind, axes, whats in bases:
         for w in whats:
-            c = {'kind': kind, 'axes': axes, 'what': w}
+            c = {'kind': kind, 'axes': axes, 'what': w.rstrip('2')}
+            if w == 'getitem2':
+                c['full2'] = 1
             k = repr(c)
             if k not in seen:
                 seen.add(k)
                 cfgs.append(c)
+    # a base explored with the full second round is not explored again with the reduced one
+    full = set(repr((c['kind'], c['axes'])) for c in cfgs if c.get('full2'))
+    cfgs = [c for c in cfgs if not (c['what'] == 'getitem' and not c.get('full2')
+                                    and repr((c['kind'], c['axes'])) in full)]
     cfgs.sort(key=lambda c: (len(c['axes']), _complexity(c['axes'], c['kind'])))
     return cfgs
 
 
 def run(cfg):
     V = Viol()
-    thorough_depth = len(cfg['axes']) == 1
     b = base_of(cfg, V)
     nd = len(cfg['axes'])
     V.sigs.add('%s:%dd:%s' % (cfg['kind'], nd, cfg['what']))
@@ -1220,8 +1256,9 @@ def run(cfg):
     elif w == 'points':
         check_points(p, site + '.index', V, 'base %s' % (cfg['axes'],), star=(nd >= 3))
     elif w == 'getitem':
-        nch = explore_getitem(p, ref, site, V, full2=thorough_depth, points_star=(nd >= 2))
-        return V.result(sample={'distinct_children': nch})
+        nch, ng = explore_getitem(p, ref, site, V, full2=bool(cfg.get('full2')),
+                                  points_star=(nd >= 2))
+        return V.result(sample={'distinct_children': nch, 'distinct_grandchildren': ng})
     elif w == 'ops':
         others = [[POOL[i]] for i in range(len(POOL))] + [[POOL[2], POOL[1]]]
         check_ops(p, ref, V, others, thorough=(nd <= 2))
